@@ -561,45 +561,65 @@ func c20model(c *Ctx) bool {
 			}
 		}
 	}
-	// seven-parameter shift, both spellings, in order
-	{
-		w7, why1 := run(`GEOGCS["GCS_Model",DATUM["D_Model",SPHEROID["Model_Spheroid",P7,P8],TOWGS84[P21,P22,P23,P24,P25,P26,P27]],PRIMEM["Greenwich",0],UNIT["degree",0.0174532925199433]]`)
-		p7, why2 := run("+proj=longlat +a=P7 +rf=P8 +towgs84=P21,P22,P23,P24,P25,P26,P27 +no_defs")
+	// seven-parameter shifts, both spellings, in order: a full one, a rotation-free one with a scale,
+	// one without a scale
+	var w7, p7 *oStruct
+	for _, lv := range []struct {
+		facet string
+		vals  [7]string
+	}{
+		{"towgs84(7)", [7]string{"P21", "P22", "P23", "P24", "P25", "P26", "P27"}},
+		{"towgs84(7,no rotation)", [7]string{"P21", "P22", "P23", "0", "0", "0", "P27"}},
+		{"towgs84(7,no scale)", [7]string{"P21", "P22", "P23", "P24", "P25", "P26", "0"}},
+	} {
+		list := strings.Join(lv.vals[:], ",")
+		w, why1 := run(`GEOGCS["GCS_Model",DATUM["D_Model",SPHEROID["Model_Spheroid",P7,P8],TOWGS84[` + list + `]],PRIMEM["Greenwich",0],UNIT["degree",0.0174532925199433]]`)
+		p, why2 := run("+proj=longlat +a=P7 +rf=P8 +towgs84=" + list + " +no_defs")
+		if lv.facet == "towgs84(7)" {
+			w7, p7 = w, p
+		}
 		for _, s := range []struct {
 			st   *oStruct
 			why  string
 			what string
-		}{{w7, why1, "WKT TOWGS84 with seven values"}, {p7, why2, "PROJ.4 +towgs84 with seven values"}} {
+		}{{w, why1, "WKT TOWGS84[" + list + "]"}, {p, why2, "PROJ.4 +towgs84=" + list}} {
 			if s.why != "" {
-				setUnk("towgs84(7)", "%s: %s", s.what, s.why)
+				setUnk(lv.facet, "%s: %s", s.what, s.why)
 				continue
 			}
 			dp, ok := s.st.fields["DatumParams"].(oSlice)
 			good := ok && dp.length() == 7
 			for i := 0; good && i < 7; i++ {
 				// element i is the i-th value written, possibly converted (arc seconds to radians,
-				// parts per million to a factor): a non-constant function of that symbol alone
+				// parts per million to a factor): a non-constant function of that symbol alone, or a
+				// constant where a number was written
 				q, ok := symOf(dp.at(i))
-				good = ok && onlySymbol(q, fmt.Sprintf("p%d", 21+i))
+				if strings.HasPrefix(lv.vals[i], "P") {
+					good = ok && onlySymbol(q, "p"+lv.vals[i][1:])
+				} else {
+					good = ok && !regexp.MustCompile(`p\d+`).MatchString(q.canon())
+				}
 			}
 			if !good {
-				setBad("towgs84(7)", "%s gives SR.DatumParams = %s, want the seven values (or their unit conversions) in the order written", s.what, showVal(s.st.fields["DatumParams"]))
+				setBad(lv.facet, "%s gives SR.DatumParams = %s, want the seven values (or their unit conversions) in the order written", s.what, showVal(s.st.fields["DatumParams"]))
 			}
 		}
-		if w7 != nil && p7 != nil {
-			a, ok1 := w7.fields["DatumParams"].(oSlice)
-			b, ok2 := p7.fields["DatumParams"].(oSlice)
+		if w != nil && p != nil {
+			a, ok1 := w.fields["DatumParams"].(oSlice)
+			b, ok2 := p.fields["DatumParams"].(oSlice)
 			if ok1 && ok2 && a.length() == b.length() {
 				for i := 0; i < a.length(); i++ {
 					x, okx := symOf(a.at(i))
 					y, oky := symOf(b.at(i))
 					if okx && oky && !x.equal(y) {
-						setBad("towgs84(7)", "datum shift value %d is %s from WKT and %s from PROJ.4", i, showVal(a.at(i)), showVal(b.at(i)))
+						setBad(lv.facet, "datum shift value %d is %s from WKT and %s from PROJ.4", i, showVal(a.at(i)), showVal(b.at(i)))
 					}
 				}
 			}
 		}
-		get("towgs84(7)")
+		get(lv.facet)
+	}
+	{
 		if w7 != nil && p7 != nil {
 			wn, _ := strOf(w7.fields["Name"])
 			pn, _ := strOf(p7.fields["Name"])
